@@ -299,6 +299,14 @@ impl DiskStruct for Track {
         self.head = bytes[2];
         self.sectors = bytes[3];
         self.sector_shift = bytes[4];
+        if self.sector_shift==0xff {
+            warn!("inhomogeneous sector sizes are not supported");
+            return Err(DiskStructError::IllegalValue);
+        }
+        if self.sector_shift>6 {
+            debug!("sector size code {} is out of range",self.sector_shift);
+            return Err(DiskStructError::IllegalValue);
+        }
         debug!("Cylinder {}, Head {}: {} sectors x {} bytes",self.cylinder,self.head & HEAD_MASK,self.sectors,SECTOR_SIZE_BASE << self.sector_shift);
         let mut ptr: usize = 5;
         check(bytes,ptr+self.sectors as usize)?;
@@ -323,6 +331,11 @@ impl DiskStruct for Track {
         }
         self.track_buf = Vec::new();
         for _lsec in 0..self.sectors {
+            check(bytes,ptr+1)?;
+            if SectorData::from_u8(bytes[ptr]).is_none() {
+                debug!("unknown sector data type {}",bytes[ptr]);
+                return Err(DiskStructError::IllegalValue);
+            }
             let sec_size = self.get_sec_buf_size(bytes[ptr]);
             check(bytes,ptr+sec_size)?;
             self.track_buf.append(&mut bytes[ptr..ptr+sec_size].to_vec());
@@ -594,7 +607,7 @@ impl img::DiskImage for Imd {
             [73,77,68,32,48,46] => info!("identified IMD v0.x header"),
             [73,77,68,32,49,46] => info!("identified IMD v1.x header"),
             [73,77,68,32,x,y] => {
-                warn!("IMD header found but with unknown major version {}.{}...",x-48,y-48);
+                warn!("IMD header found but with unknown major version {}.{}...",x as char,y as char);
                 return Err(DiskStructError::UnexpectedValue);
             }
             _ => return Err(DiskStructError::UnexpectedValue)
@@ -605,6 +618,10 @@ impl img::DiskImage for Imd {
                 ptr = i;
                 break;
             }
+        }
+        if ptr==0 {
+            debug!("IMD comment terminator not found");
+            return Err(DiskStructError::IllegalValue);
         }
         if let Ok(comment) = String::from_utf8(data[29..ptr].to_vec()) {
             let mut ans = Self {
@@ -623,6 +640,10 @@ impl img::DiskImage for Imd {
                     return Err(DiskStructError::IllegalValue);
                 }
                 ans.tracks.push(compressed.expand());
+            }
+            if ans.tracks.len()==0 {
+                debug!("IMD has no tracks");
+                return Err(DiskStructError::UnexpectedSize);
             }
             // TODO: this works for now, but we should have the IMD object set up a pattern
             // that can be explicitly matched against the disk kind.
